@@ -131,6 +131,19 @@ func c18DrawOffers(t *rapid.T, height int32, relay, maxRate int64,
 			}
 		}
 
+		// Distinct budgets: ClusterInputs sorts by budget with an
+		// unstable sort over map-ordered input, ties would make the
+		// split into sets irreproducible.
+		for dup := true; dup; {
+			dup = false
+			for _, p := range offers {
+				if p.budget == o.budget {
+					o.budget++
+					dup = true
+				}
+			}
+		}
+
 		offers = append(offers, o)
 	}
 
@@ -289,6 +302,16 @@ func TestVerifC18Aggregator(t *testing.T) {
 			case "wallet_np2wkh":
 				at = lnwallet.NestedWitnessPubKey
 			}
+			// Distinct values: AddWalletInputs sorts unstably.
+			for dup := true; dup; {
+				dup = false
+				for _, u := range utxos {
+					if int64(u.Value) == v {
+						v++
+						dup = true
+					}
+				}
+			}
 			utxos = append(utxos, &lnwallet.Utxo{
 				AddressType: at, Value: btcutil.Amount(v),
 				PkScript: k.pk, OutPoint: op, Confirmations: 6,
@@ -313,6 +336,10 @@ func TestVerifC18Aggregator(t *testing.T) {
 			multiInput  int
 			reqCounter  int
 			failedAgain int
+			// carriedAboveCeil: a starting rate reported by the
+			// publisher itself exceeds the ceiling of the re-grouped
+			// set (F2 without any user input).
+			carriedAboveCeil int
 		)
 
 		// runRound clusters the offers and broadcasts every set.
@@ -465,6 +492,9 @@ func TestVerifC18Aggregator(t *testing.T) {
 					aboveMax++
 				} else if r.hasStart && r.start > ceil {
 					aboveCeil++
+					if round == 2 {
+						carriedAboveCeil++
+					}
 				}
 
 				// Wallet answers.
@@ -600,6 +630,9 @@ func TestVerifC18Aggregator(t *testing.T) {
 		}
 		if aboveCeil > 0 {
 			labels = append(labels, "set_start_above_budget_ceiling")
+		}
+		if carriedAboveCeil > 0 {
+			labels = append(labels, "carried_start_above_regrouped_ceiling")
 		}
 		if aboveMax > 0 {
 			labels = append(labels, "set_start_above_max")
